@@ -38,7 +38,8 @@ def main(argv):
         path.write_text(text)
         env = dict(os.environ, VERIF_REPO=str(scratch / "repo"), VERIF_EVIDENCE_DIR=str(scratch / "evidence"),
                    VERIF_REPLAY_DIR=str(scratch / "replays"))
-        env.setdefault("VERIF_RUNS", "320")
+        if prop != "C16":  # C16 batches open with ~310 directed runs; the random part lies behind them
+            env.setdefault("VERIF_RUNS", "320")
         t0 = time.time()
         proc = subprocess.run([str(V / "check"), prop, "quick"], env=env, cwd=str(V),
                               stdout=subprocess.PIPE, stderr=subprocess.STDOUT, text=True)
